@@ -342,6 +342,9 @@ var runtimeVariants = []struct {
 	{"p1", []string{"GOMAXPROCS=1"}},
 	{"p3gc5", []string{"GOMAXPROCS=3", "GOGC=5"}},
 	{"p64", []string{"GOMAXPROCS=64"}},
+	// no garbage collection (bounded by a memory limit): sync.Pool contents survive, so whatever a recycled object carries shows
+	{"gcoff", []string{"GOGC=off", "GOMEMLIMIT=3GiB"}},
+	{"p2gcoff", []string{"GOMAXPROCS=2", "GOGC=off", "GOMEMLIMIT=3GiB"}},
 }
 
 // WithRuntimeVariants appends, for every `every`-th spec accepted by `pick`, a copy that runs under one of the
